@@ -152,7 +152,7 @@ func Gen(r *sx.Rng, idx int, focus string) sx.Tree {
 				}
 			}
 		}
-		if focus == "C02" && len(stall) == 0 && r.Chance(60) {
+		if ((focus == "C02" && r.Chance(60)) || ((focus == "C04" || focus == "C16") && r.Chance(25))) && len(stall) == 0 {
 			// slow error handlers and many failures: handler buffers fill, reports must still all arrive (or be
 			// discarded and counted when the HANDLER is marked discard_on_full_buffer)
 			phases[1] = sx.Ints(r.Range(60, 200), 1)
@@ -194,7 +194,17 @@ func Gen(r *sx.Rng, idx int, focus string) sx.Tree {
 	if focus == "C18" && r.Chance(7) {
 		ints = append(ints, sx.Ints(5), sx.Ints(1), rel(), sx.Ints(1))
 	}
-	ints = append(ints, sx.Ints(4))
+	if (focus == "C03" && r.Chance(45)) || (focus != "C03" && r.Chance(20)) {
+		// end by SIGTERM instead; often while the main loop is blocked handing an event to a full root buffer
+		if r.Chance(60) {
+			for i := 0; i < int(r.Range(2, 7)); i++ {
+				ints = append(ints, sx.Ints(1))
+			}
+		}
+		ints = append(ints, sx.Ints(7))
+	} else {
+		ints = append(ints, sx.Ints(4))
+	}
 	if !stall {
 		// drain: release everything, several passes
 		for pass := 0; pass < 4; pass++ {
